@@ -17,7 +17,7 @@ CHECKS = {
    text="tx3.pest is read with pest_meta and, for every rule reachable from `program`, every derivation with <= 2 (thorough: 3) deviations inside that rule is generated in its shortest context; every single token edit (delete, duplicate, swap, 24 replacements, literal stretching) of every example program; 9 recursive shapes escalated to depth 64; reference cycles. Every string is parsed and, if it parses, analysed in a worker process under a 10 s / 4 GiB cap with the case announced beforehand, so a panic, abort or hang is attributed to its input. Exhaustive below the deviation bound; silent about strings needing more deviations.",
    note="Panic signatures are the enclosing tx3 function (from a backtrace) + normalised message; hang/abort signatures are case family + front-end phase. Timing cap is part of the definition of 'fails to terminate'."),
  "C19": dict(cat="exploration", design="§3 C19", technique="bounded exhaustive enumeration of erroneous sources (C12 enumeration + error injected at every token boundary of multi-line / multi-byte bases)",
-   text="Every source of the C12 enumeration plus 5 offending tokens injected at every token boundary of 12 multi-line bases (LF / CRLF, tabs, multi-byte comments and strings before the error). Each parse diagnostic's span must lie within the text the diagnostic carries, on char boundaries, and render through miette; each located analysis diagnostic must lie within the input and, for not-in-scope, cover exactly the reported name.",
+   text="Every source of the C12 enumeration plus 8 offending tokens (three of them multi-byte characters placed exactly where the parser stops) injected at every token boundary of 12 multi-line bases (LF / CRLF, tabs, multi-byte comments and strings before the error). Each parse diagnostic's span must lie within the text the diagnostic carries, on char boundaries, and render through miette; each located analysis diagnostic must lie within the input and, for not-in-scope, cover exactly the reported name.",
    note="Diagnostics with dummy spans are only counted; inputs that crash the front end belong to C12."),
  "C13": dict(cat="exploration", design="§3 C13", technique="bounded exhaustive enumeration of single textual/semantic mutations of a program corpus, oracle accepted => lowerable",
    text="Every source of the C12 enumeration plus, over the example corpus and two feature bases: every identifier token replaced by every other identifier of the program and by the built-in names, every call arity changed to 0 and +1, every line deleted / duplicated, every literal malformed, local chains of every length 1..16. For every program the analyzer accepts, lowering of every tx and Workspace::lower must succeed without panic.",
@@ -44,16 +44,16 @@ CHECKS = {
    text="Every boundary integer / boolean spelling / byte length 0..33 / address form / utxo ref in every documented encoding must invert; every single-character edit of every valid string encoding and 36 JSON values of every kind, against all 5 argument types, must be accepted exactly when an independently written strict decoder (own hex, base64, bech32) says the text denotes the returned value; requests with 0..3 declared parameters in all 2^n args/env splits, undeclared extras and 12 envelope variants must yield exactly the declared subset or an error, never a panic.",
    note="Strict codec embodies my reading of the documented encodings (signed decimal strings, one optional 0x, bech32 with any prefix); multi-character corruptions only via the JSON-kind list."),
  "C17": dict(cat="exploration", design="§3 C17", technique="deviation-bounded exhaustive enumeration of identifier spellings / usage patterns, each program compiled by the real tx3c binary and read back",
-   text="Every corpus program and every execution with <= 2 (thorough 3) deviations of a spelling generator (5 spellings for parameters, parties and env fields; unused / used / colliding third parameter; env usage; policy) is compiled with `tx3c build --emit tii`; the TII must list exactly the program's transactions, its embedded IR must decode to the canonical form of in-process lowering, the keys the IR requires must be declared with identical spelling and without collisions, and a request built from exactly the declared keys must not be answered with MissingTxArg.",
+   text="Every corpus program and every execution with <= 2 (thorough 3) deviations of a spelling generator (5 spellings for parameters, parties and env fields; unused / used / colliding third parameter; env usage; policy; keys used only in signers / validity / reference blocks; second transactions) and every distinct program of the typed program generator with <= 2 (thorough 3) deviations is compiled with `tx3c build --emit tii`; the TII must list exactly the program's transactions, its embedded IR must decode to the canonical form of in-process lowering, the keys the IR requires must be declared with identical spelling and without collisions, and a request built from exactly the declared keys must not be answered with MissingTxArg.",
    note="The binary is rebuilt from /repo by ./check; derived policy-script parameters are reported under a separate signature."),
  "C18": dict(cat="exploration", design="§3 C18", technique="repetition until every observed-container iteration order is covered (in-process) plus fresh processes; oracle = byte equality",
-   text="For every corpus program, directive-bearing bases and spelling-generator programs, parse+analyze+lower+to_bytes is repeated in one process at least 20 times and until every iteration order of every directive field map (k! for k <= 4) has been observed; three fresh tx3c processes emit the TII; all encodings and files must be byte-identical and the embedded IR equal to the in-process encoding.",
-   note="Hash-map order is observed, not chosen (std's hasher keys are per instance); coverage of orders is measured and reported; publish directives (5 fields) require 24 distinct orders."),
+   text="For every corpus program, directive-bearing bases, spelling-generator programs and every distinct program of the typed generator with <= 2 (thorough 3) deviations, parse+analyze+lower+to_bytes is repeated in one process at least 20 times and until every iteration order of every directive field map (k! for k <= 4) has been observed; three fresh tx3c processes emit the TII; all encodings and files must be byte-identical and the embedded IR equal to the in-process encoding; every corpus program additionally goes through 12 fresh tx3c processes with one command line declaring profiles (one bound to three disagreeing env files, forced profiles) and must give one byte string.",
+   note="Hash-map order is observed, not chosen (std's hasher keys are per instance); coverage of orders is measured and reported; publish directives (5 fields) require 24 distinct orders; an observed difference is the counterexample and need not reproduce on replay."),
  "C05": dict(cat="model_checking", design="§3 C05", technique="explicit-state exploration of the fee map's orbit (each transition executes the real round) over an exhaustive protocol-parameter grid",
    text="Rounds of the resolve loop are transitions of the system fee -> transaction -> fee; every transition executes the real apply_fees / compiler ops / reduce / inputs::resolve / compile. For every configuration of the grid (coefficient x constant x margin x utxo cost, plus CBOR width windows) and each of 14 template/store scenarios the orbit is followed to a fixed point, a cycle or 32 rounds and resolve_tx is called: whatever it returns must have body fee = reported fee = coefficient*|payload| + constant + margin, be reproduced by one more round, and balance against the store.",
    note="States are (configuration, scenario, compiled transaction) nodes, merged by byte equality of the compiled result; model = implementation, so every transition is validated by construction; round budget 10 as caller's argument."),
  "C20": dict(cat="model_checking", design="§3 C20", technique="explicit-state breadth-first search over histories of a real Compiler instance, state key = latest_tx_body bytes, invariant checked in every state for every target",
-   text="A state is a history of resolutions / direct compilations replayed on a fresh identically configured tx3_cardano::Compiler, identified by the bytes of latest_tx_body (the other fields are asserted unchanged at every transition). From every reachable state every one of 13 actions is executed on a replica and its outcome (payload, hash, fee | error kind | panic) compared with the outcome on a fresh instance. Every transition is an execution of resolve_tx / compile.",
+   text="A state is a history of resolutions / direct compilations replayed on a fresh identically configured tx3_cardano::Compiler, identified by the bytes of latest_tx_body (the other fields are asserted unchanged at every transition). From every reachable state every one of 17 actions (incl. templates whose arguments / inputs were applied upstream and that arrive with an empty argument map) is executed on a replica and its outcome (payload, hash, fee | error kind | panic) compared with the outcome on a fresh instance. Every transition is an execution of resolve_tx / compile.",
    note="The reachable state space closes after one step when the property holds (the state is the last compiled body); depth bound 3 (thorough 4); 3 stores x 3 protocol-parameter sets."),
  "C07": dict(cat="model_checking", design="§3 C07", technique="explicit-state search of the stage-order graph over real TIR values (all 24 stage orders x all reduce placements), invariants on every state and on the set of terminals",
    text="Per template a breadth-first search explores states (canonical TIR, applied stage set, last-was-reduce) whose transitions are the real apply_args / apply_inputs / apply_fees / Node::apply(compiler) / reduce, with compiler ops enabled exactly when a generic walk finds their operands free of unresolved parameters. All terminal states must carry one canonical template, no schedule may fail when another succeeds, and reduce must be idempotent in every state. Templates: corpus, built-in bases (literal / param / env / local operands), every distinct program of the typed generator with <= 1 (thorough: 2) deviations (incl. asset classes that come from parameters while the amounts are literals), all tirgen trees of depth <= 1.",
